@@ -64,6 +64,18 @@ func (g *Gen) seedGenesis(gs *GenesisSpec) {
 			a.Topics = append(a.Topics, t)
 		}
 	}
+	if r.Chance(0.25) {
+		// a long topic: appends during the run cross the 255/256 boundary of the offset encoding
+		ob := g.env.Accs[r.Intn(3)].Addr
+		wb := g.env.Accs[r.Intn(3)].Addr
+		t := AolGenTopic{OwnerHex: hex.EncodeToString(ob), Name: "long-" + topicPool[r.Intn(4)], Desc: "long"}
+		t.Writers = []AolGenWriter{{AddrHex: hex.EncodeToString(wb), Moniker: "lw", Ts: ts}}
+		n := r.Range(250, 258)
+		for k := 0; k < n; k++ {
+			t.Records = append(t.Records, AolGenRecord{KeyHex: fmt.Sprintf("%04x", k), ValueHex: fmt.Sprintf("%06x", k*7), Ts: ts - 5000 + int64(k), Writer: sdk.AccAddress(wb).String()})
+		}
+		a.Topics = append(a.Topics, t)
+	}
 	// dedupe (owner,name)
 	seen := map[string]bool{}
 	var tt []AolGenTopic
@@ -326,7 +338,7 @@ func (g *Gen) famHostileQuery() {
 	r := g.rng
 	o := g.addr(0)
 	rep := strings.Repeat
-	big := rep("q", 256+r.Intn(300))
+	big := []string{rep("q", 256+r.Intn(300)), rep("é", 128), rep("é", 127) + "ab", rep("가", 86), rep("q", 200) + rep("가", 20), rep("\U0001F600", 64), rep("é", 127) + "a"}[r.Intn(7)]
 	a255 := sdk.AccAddress(make([]byte, 255)).String()
 	a256 := sdk.AccAddress(make([]byte, 256)).String()
 	pgs := []*query.PageRequest{nil, {Key: []byte{0xff, 0x00, 0x01}}, {Offset: 1 << 62}, {Limit: ^uint64(0)}, {Key: []byte("x"), Offset: 3}, {Reverse: true, Key: r.Bytes(300)}, {Limit: 1, CountTotal: true, Reverse: true}, {Key: []byte{0x05}}}
